@@ -335,6 +335,7 @@ class Scheduler(object):
         self.timeout = timeout
         self.max_steps = max_steps
         self.runs = 0
+        self._idents, self._by_thread, self._free = {}, {}, True  # no run in progress: gates are no-ops
 
     def current(self):
         """Scheduler id of the calling thread (None for unscheduled threads) and the number of
